@@ -4,7 +4,7 @@ import json
 META = {
     "level": "exploration",
     "technique": "TLA+ relation evaluated by TLC on records produced by a real Behaviour<MemoryStore> that is fed the handler events of inbound ADD_PROVIDER / PUT_VALUE requests with every sender/provider/publisher identity combination; the store is read back through store_mut() and the InboundRequest events are drained",
-    "text": "Exhaustive over the abstract identity space: sender in {local, peer1, peer2} x announced provider in {local, peer1, peer2, peer3} x record filtering on/off x an honest provider record already stored or not (ADD_PROVIDER), and sender x publisher in {none, local, peer1, peer2} x filtering x a local record already stored or not (PUT_VALUE). The TLA+ relation: a provider record is stored iff provider = sender and provider != local (with filtering: handed to the application under the same condition, never stored); a PUT_VALUE whose publisher is the local node leaves the store untouched and raises no event, any other one replaces the record. A finite case analysis over identities, so enumeration of the abstract space is the right level.",
+    "text": "Exhaustive over the abstract identity space: sender in {local, peer1, peer2} x announced provider in {local, peer1, peer2, peer3} x record filtering on/off x an honest provider record already stored or not x the named peers connected to the node or not (ADD_PROVIDER), and sender x publisher in {none, local, peer1, peer2} x filtering x a local record already stored or not (PUT_VALUE). The TLA+ relation: a provider record is stored iff provider = sender and provider != local (with filtering: handed to the application under the same condition, never stored); a PUT_VALUE whose publisher is the local node leaves the store untouched and raises no event, any other one replaces the record. A finite case analysis over identities, so enumeration of the abstract space is the right level.",
     "note": "Events are injected at NetworkBehaviour::on_connection_handler_event (what the connection handler emits for an inbound request); the stream/codec path in front of it is C44's subject.",
     "design_ref": "6/C43",
 }
